@@ -13,8 +13,8 @@ from vmon.util import mk_rng, guarded, Raised, snapshot
 
 ID = "C13"
 RULE = (
-    "seeded samples (normal, heavy-tailed, tied integers, outliers, multi-modal, constant-plus-one; "
-    "n = 2..5000; float64/float32/int/list; 1-D and 2-D) x fractions (uniform, tiny, near 1, exactly k/n and k/n +- 1ulp); "
+    "seeded samples (normal, heavy-tailed, skewed (densest at an edge), tied integers, outliers, multi-modal, constant-plus-one; "
+    "n = 2..5000 and chain-sized (5001..40000, one case in 40); float64/float32/int/list; 1-D and 2-D) x fractions (uniform, tiny, near 1, exactly k/n and k/n +- 1ulp); "
     "a case is non-trivial when the sample has >= 3 distinct values (the window position is not forced); "
     "distinct = distinct (sample bytes, fraction)"
 )
@@ -22,7 +22,7 @@ ASSUMPTIONS = [
     "float comparisons: coverage is decided with exact rational arithmetic on fraction*n; affine covariance is compared at 16 ulp of the transformed magnitudes",
 ]
 TIMEOUT = {"quick": 300, "thorough": 1500}
-REQUIRED = {"post:sample_hdi": 200, "cases:ties": 10, "cases:2d": 10, "cases:k_over_n": 10}
+REQUIRED = {"post:sample_hdi": 200, "cases:ties": 10, "cases:2d": 10, "cases:k_over_n": 10, "cases:large_n": 100}
 
 
 def jobs(tier, seed):
@@ -34,8 +34,8 @@ def jobs(tier, seed):
     return out
 
 
-def gen_sample(rng, n):
-    kind = rng.choice(["normal", "cauchy", "ties", "outliers", "bimodal", "const1", "sorted", "lognormal", "near_ties", "grid"])
+def gen_sample(rng, n, kind=None):
+    kind = kind or rng.choice(["normal", "cauchy", "ties", "outliers", "bimodal", "const1", "sorted", "lognormal", "near_ties", "grid", "skewed"])
     scale = 10.0 ** rng.uniform(-6, 6)
     shift = rng.choice([0.0, 1.0, -1.0, 1e3, -1e6]) * scale * rng.choice([0, 1])
     if kind == "near_ties" and n >= 4:
@@ -67,6 +67,11 @@ def gen_sample(rng, n):
     elif kind == "const1":
         s = np.zeros(n)
         s[rng.integers(n)] = 1.0
+    elif kind == "skewed":
+        # densest at one edge of the sample (waiting times, variances): exponential / gamma, or their mirror images
+        s = rng.exponential(size=n) if rng.random() < 0.5 else rng.gamma(rng.uniform(0.3, 2.0), size=n)
+        if rng.random() < 0.3:
+            s = -s
     elif kind == "sorted":
         s = np.sort(rng.exponential(size=n))
         if rng.random() < 0.5:
@@ -139,7 +144,11 @@ def run_job(job, rec):
     sizes = [2, 3, 4, 5, 6, 7, 10, 19, 20, 21, 50, 100, 101, 333, 1000, 5000]
     for c in range(job["n_cases"]):
         n = int(rng.choice(sizes)) if rng.random() < 0.7 else int(np.exp(rng.uniform(np.log(2), np.log(3000))))
-        kind, s64 = gen_sample(rng, n)
+        if c % 40 == 7:
+            # chain-sized samples
+            n = int(rng.choice([5001, 8192, 12345, 21385, 40000]))
+            rec.count("cases:large_n")
+        kind, s64 = gen_sample(rng, n, "skewed" if c % 80 == 7 else None)
         fmode, f = gen_fraction(rng, n)
         if kind == "near_ties" and n >= 4:
             fmode, f = "half", float((n // 2) / n)
